@@ -164,6 +164,9 @@ class SkBaseTransformStacking(SkBaseTransform):
         if "method" in values:
             self.method = values["method"]
             del values["method"]
+        own = {k: values.pop(k) for k in list(values) if k in self.P.Keys}
+        if own:
+            SkBaseTransform.set_params(self, **own)
         for k, v in values.items():
             if not k.startswith("models_"):
                 raise ValueError(f"Parameter '{k}' must start with 'models_'.")
